@@ -179,10 +179,36 @@ __attribute__((noinline)) void run_mixed(long id, const char *desc, u64 nrandom,
     dump("dmixed", id, desc);
 }
 
+// where the duration is accepted, the value it is converted to is the value its corresponding quantity is converted to (bitwise)
+template <typename D, typename QTarget, bool Ok = std::is_convertible<D, QTarget>::value && std::is_convertible<au::CorrespondingQuantityT<D>, QTarget>::value>
+struct AcceptValue { static void run(long, const char *, const char *) {} };
+template <typename D, typename QTarget>
+struct AcceptValue<D, QTarget, true> {
+    static void run(long id, const char *desc, const char *target) {
+        using Rep = typename D::rep;
+        vf::Rng r(id * 7919u + 13);
+        unsigned long long n = 0, mm = 0; char wit[96] = "";
+        for (int i = 0; i < 400; ++i) {
+            Rep c;
+            if (std::is_floating_point<Rep>::value) c = (Rep)((long double)((long long)(r.next() % 2000001) - 1000000) / 7919.0L * (i % 3 == 0 ? 1.0L : 1e-3L));
+            else { long long t = (long long)(r.next() % 4001) - 2000; if (!std::is_signed<Rep>::value && t < 0) t = -t; if (sizeof(Rep) == 1) t %= 100; c = (Rep)t; }  // (|count| <= 2000: inside the policy's overflow-free band)
+            const D d{vf::launder(c)};
+            QTarget a{}, b{};
+            vf::g_inst = id;
+            VF_PHASE(vf::PH_OPERATION) { QTarget a2 = d; QTarget b2 = au::as_quantity(d); a = a2; b = b2; }
+            auto x = a.in(typename QTarget::Unit{}); auto y = b.in(typename QTarget::Unit{});
+            ++n;
+            if (memcmp(&x, &y, sizeof(x)) != 0 && !(x != x && y != y)) { if (!mm) snprintf(wit, sizeof wit, "%.21Lg", (long double)c); ++mm; }
+        }
+        printf("{\"ev\":\"dacceptval\",\"id\":%ld,\"desc\":\"%s\",\"target\":\"%s\",\"evals\":%llu,\"mm\":%llu,\"count\":\"%s\"}\n", id, desc, target, n, mm, wit);
+    }
+};
+
 // ---- implicit acceptance: duration -> quantity type  <=>  corresponding quantity -> quantity type ------------
 template <typename D, typename QTarget>
 void accept_fact(long id, const char *desc, const char *target) {
     using CQ = au::CorrespondingQuantityT<D>;
+    AcceptValue<D, QTarget>::run(id, desc, target);
     printf("{\"ev\":\"daccept\",\"id\":%ld,\"desc\":\"%s\",\"target\":\"%s\",\"duration_convertible\":%d,\"quantity_convertible\":%d}\n", id, desc, target,
            (int)std::is_convertible<D, QTarget>::value, (int)std::is_convertible<CQ, QTarget>::value);
     // the same question for every cv/ref form of the duration type must have the same answer
